@@ -56,4 +56,10 @@ TEXT = {
          "sub-checks decide. Trusted: refwire's percent codec as second implementation.",
  'technique': 'exhaustive enumeration of finite domains + property-based testing (rapid): round-trip, rejection, header-safety and totality oracles; '
               'differential against an independent percent codec'},
+    'C12': {'text': "Exploration: generated (method, HTTP version, Content-Type, codec set, kind) tuples against a model of the dispatch rules, including 'advertised == "
+         "accepted' for every generated string (near misses are generated from the advertised set), and generated base-URL shapes through connect.NewClient "
+         'and the generated Ping client to compare the Spec seen by client-side and handler-side interceptors.',
+ 'design_ref': 'DESIGN.md §5 C12',
+ 'note': "Trusted: the model of the advertised set written from the property statement; memnet.Serve's crafted *http.Request.",
+ 'technique': 'property-based testing (rapid): executable model of the dispatch rules vs ServeHTTP; Spec agreement as an invariant over generated URL shapes'},
 }
